@@ -75,6 +75,8 @@ package store
 //@   ensures [no-transaction-no-delete] txnBegins == old(txnBegins) ==> txnDeletes == old(txnDeletes) && commitNilCalls == old(commitNilCalls) && commitErrCalls == old(commitErrCalls)
 //@   ensures metaPuts == old(metaPuts)
 //@   panics never
+// the final `return nil, err` can only be reached with err == nil excluded: dead code
+//@   unreachable return@1
 
 // ---- C11: guarded state update ------------------------------------------------------------------------
 // lo.Contains (samber/lo source): membership
